@@ -11,10 +11,13 @@ ID = 'C17'
 LEAN_MODULES = ['Proofs.C17']
 REQUIRED = ['C17.kdt_len_eq', 'C17.kdt_x_distinct_inrange', 'C17.kdt_y_inrange', 'C17.kdt_knn_member',
             'C17.kdt_y_injective', 'C17.kdt_pairs_one_to_one', 'C17.kdt_row_marked_at_most_once', 'C17.kdt_matched_iff',
+            'C17.kdt_marks_greedy', 'C17.kdt_closest_claimant', 'C17.kdt_first_neighbour_matched',
             'C17.kdt_sortedpos_not_injective']
 TRUSTED = ['scipy.spatial.cKDTree(y).query(x, k=K, distance_upper_bound=b) is an oracle: its result (D, inds) is obtained from the '
            'real library on the same inputs and handed to the model exactly (distances as exact rationals, inf as a sentinel)',
-           'that the entries of a query row are the K nearest points of y is scipy\'s contract; the instance check recomputes it by brute force']
+           'that the entries of a query row are the K nearest points of y is scipy\'s contract; the instance check recomputes it by brute force',
+           'the order of exactly tied neighbours within a query row is whatever the KD-tree returns: the closest-claimant and '
+           'first-neighbour instance checks read the real query table for it']
 ASSUMPTIONS = ['kdquery_wellformed (Kdt.wfCheck, the executable form of WFQuery, evaluated by the model on every query result of the run): '
                'nx rows of K entries; entry = real neighbour (index < ny, finite distance in [0, bound]) or padding (index ny, distance inf); '
                'distances non-decreasing along a row; real neighbours of a row distinct']
@@ -131,6 +134,41 @@ def pairing_failures(x, y, K, bound, out):
         dij = float(np.sqrt(((y2[j] - x2[i]) ** 2).sum()))
         if dij > bound * (1 + 1e-12):
             fs.append(Failure('pair-beyond-bound', 'pair (%d,%d) is %r apart, bound %r' % (i, j, dij, bound)))
+            break
+    return fs + greedy_failures(out, ny)
+
+
+def greedy_failures(out, ny):
+    """The anchored mechanism ("each candidate goes to its closest claimant", theorems kdt_closest_claimant and
+    kdt_first_neighbour_matched), evaluated on the implementation's output against the real query table: the order of
+    tied neighbours within a row is defined by that table only, so these two checks read it instead of recomputing it."""
+    D, inds = out['D'], out['inds']
+    dist = lambda r, c: math.inf if D[r][c] == -1 else D[r][c]  # noqa: E731
+    partner = dict(zip(out['y_inds'], out['x_inds']))
+    fs = []
+    for i, j in zip(out['x_inds'], out['y_inds']):
+        for c in [c for c in range(len(inds[i])) if inds[i][c] == j][:1]:
+            rivals = [r for r in range(len(inds)) if inds[r][c] == j and dist(r, c) < dist(i, c)]
+            if rivals:
+                fs.append(Failure('not-closest-claimant', 'pair (%d,%d) formed in column %d at distance %r, but row %d has the same '
+                                  'candidate there at %r' % (i, j, c, dist(i, c), rivals[0], dist(rivals[0], c))))
+                break
+        if fs:
+            break
+    firsts = {}
+    for r in range(len(inds)):
+        v = inds[r][0]
+        if v < ny:
+            firsts.setdefault(v, []).append(r)
+    for v, rows in sorted(firsts.items()):
+        if v not in partner:
+            fs.append(Failure('first-neighbour-unmatched', 'row %d of y is the nearest neighbour of rows %s of x but is not matched; '
+                              'pairs=%s' % (v, rows[:10], list(zip(out['x_inds'], out['y_inds']))[:20])))
+            break
+        x = partner[v]
+        if x not in rows or dist(x, 0) > min(dist(r, 0) for r in rows):
+            fs.append(Failure('first-neighbour-not-closest', 'row %d of y is the nearest neighbour of rows %s of x, matched to row %d'
+                              % (v, rows[:10], x)))
             break
     return fs
 
